@@ -112,7 +112,7 @@ def do_add(ci, objs, c, o):
 TYPES = ["variant", "optional", "addon", "layered-product"]
 
 
-def queries(ci, objs, forest, where, arch, quick):
+def queries(ci, objs, forest, where, arch, quick, light=None):
     """C11 lookup and get_variants clauses on a real forest. forest: names of filed objects."""
     fails = []
     for n in forest:
@@ -144,6 +144,11 @@ def queries(ci, objs, forest, where, arch, quick):
         typesets = [[], ["variant"], ["addon"], ["optional", "addon"], ["layered-product", "variant"], TYPES]
     archs = [None, "src"] + [arch[a] for a in ("x", "y", "z")]
     conts = [("ROOT", ci)] + [(n, objs[n]) for n in forest]
+    if light is not None:
+        # a light round (used before/after every accepted add): the top, the container concerned, few filters
+        typesets = [[], TYPES]
+        archs = [None, "src", arch["x"]]
+        conts = [c for c in conts if c[0] in ("ROOT", light)]
     level = {"ROOT": list(ci.variants.variants.values())}
     for n in forest:
         level[n] = list(objs[n].variants.values())
@@ -278,11 +283,11 @@ def eval_state(case):
         return fails
     for a in accepted:
         ci3, objs3, names3, f3 = build(case, tok, arch)
-        prime = queries(ci3, objs3, forest, "before add(%s,%s)" % (a["c"], a["o"]), arch, True)      # fills any cache
+        prime = queries(ci3, objs3, forest, "before add(%s,%s)" % (a["c"], a["o"]), arch, True, light=a["c"])      # fills any cache
         out = do_add(ci3, objs3, a["c"], a["o"])
         if out == "ok" and not prime:
             after = queries(ci3, objs3, sorted(set(forest) | set([a["o"]])), "forest %s then add(%s,%s), queried before and after the add"
-                            % (_short(case["hist"]), a["c"], a["o"]), arch, True)
+                            % (_short(case["hist"]), a["c"], a["o"]), arch, True, light=a["c"])
             if after:
                 return after
         if out != "ok":
